@@ -63,8 +63,10 @@ ROWS = [
     ('VENMO', 'Venmo', 'Transfer', 'P2P', ''),                                     # 41
     ('contains("NETFLIX")', 'Netflix Expr', 'Subs', 'Stream', 'x'),                 # 42: a CSV pattern that is an expression
     ('startswith("COSTCO") and amount > 100[month=1]', 'Costco Jan', 'Shopping', 'Bulk', ''),   # 43: an expression pattern with a modifier
+    ('SCHOOL', 'School', 'Kids', 'Fees', "kid's|school|recurring"),                # 44: an apostrophe in a tag is a character of the tag, the tags after it are tags of their own
+    ('TAILOR', 'Tailor', 'Clothes', 'Repair', 'women\'s|men\'s|say "x"|plain'),     # 45
 ]
-DESCS = ['NETFLIX.COM', 'COSTCO WHOLESALE', 'UBER EATS ORDER', 'UBER TRIP', 'SHELL OIL', 'SHELLFISH BAR', 'AMAZON MKTP', 'RENT PAYMENT', 'GYM CLUB', 'TAX OFFICE',
+DESCS = ['SCHOOL FEES', 'TAILOR SHOP', 'NETFLIX.COM', 'COSTCO WHOLESALE', 'UBER EATS ORDER', 'UBER TRIP', 'SHELL OIL', 'SHELLFISH BAR', 'AMAZON MKTP', 'RENT PAYMENT', 'GYM CLUB', 'TAX OFFICE',
          'BDAY CAKE', 'RECENT THING', 'SAY "HI" STORE', 'A.B\\C LTD', 'TAGGED ITEM', 'GREEN TEA', 'Mixed Case', 'BIG BUY', 'WIRE IN', "O'BRIEN", 'DUP', '#HASH TAG',
          'COMMA', 'BRACKET', 'SPACE', 'UTIL CO', 'AUTH HOLD', 'ZERO FEE', 'SMALL ITEM', 'GYMB CLUB', 'PLACEHOLDER X', 'NONAME X', 'SHORT X', 'BLANKCAT X', 'VENMO PAYMENT \U0001F355 NIGHT', 'CAF\u00c9 PARIS', 'NOTHING']
 AMOUNTS = [-20.0, 0.0, 0.5, 77.0, 5.0, 30.0, 49.99, 50.0, 199.99, 200.0, 200.01, 1499.99, 1499.995, 1500.0, 1500.004, 1500.02, 12345.67, 12345.68]
